@@ -768,6 +768,8 @@ class CompressedBytesColumn(Column):
     default).
     """
 
+    _default = emptybytes
+
     def __init__(self, level=3, module="zlib"):
         """
         :param level: the compression level to use.
@@ -827,6 +829,8 @@ class CompressedBlockColumn(Column):
     for columns with lots of very short values, but random access times are
     usually terrible.
     """
+
+    _default = emptybytes
 
     def __init__(self, level=3, blocksize=32, module="zlib"):
         """
@@ -1130,6 +1134,9 @@ class WrappedColumn(Column):
     def stores_lists(self):
         return self._child.stores_lists()
 
+    def default_value(self, reverse=False):
+        return self._child.default_value(reverse)
+
 
 class WrappedColumnWriter(ColumnWriter):
     def __init__(self, child):
@@ -1198,6 +1205,9 @@ class PickleColumn(WrappedColumn):
     overhead of pickling and unpickling.
     """
 
+    def default_value(self, reverse=False):
+        return None
+
     class Writer(WrappedColumnWriter):
         def __repr__(self):
             return "<PickleWriter>"
@@ -1233,6 +1243,9 @@ class PickleColumn(WrappedColumn):
 class ListColumn(WrappedColumn):
     def stores_lists(self):
         return True
+
+    def default_value(self, reverse=False):
+        return []
 
 
 class ListColumnReader(ColumnReader):
